@@ -1,7 +1,7 @@
 (* Xml/Parser.v — model of autosar-data/src/parser.rs, function by function, in a "funnel" monad:
    the flag `strict` is read by exactly one primitive (optional_error) and the warning list is written
    only there, as in the Rust.  Hard errors abort; every Rust expression that can panic is a `Pan`;
-   parse_element recursion is on fuel (one level per start tag).
+   parse_element recursion is on fuel (one level per start tag), its event loop on a second fuel.
    The result is a pure element tree; installing it into a model is Tree/. *)
 From Coq Require Import Arith.
 From AV Require Import Base.Bytes Base.Outcome Base.Utf8 Base.Radix Hash.HashModel Spec.SpecOps Spec.Versions Xml.Lexer.
@@ -124,13 +124,24 @@ Definition pnext : M event :=
 Definition name_of (t : nametab) (s : list N) : res (option N) :=
   match from_bytes t s with Ok i => Val (Some i) | Err => Val None | Panic => Pan "from_bytes: table index" end.
 
-(* trim_byte_string *)
+(* trim_byte_string:
+     let mut len = input.len();
+     if len > 0 {
+         while len > 0 && input[len - 1].is_ascii_whitespace() { len -= 1; }
+         let start = input.iter().position(|c| !c.is_ascii_whitespace()).unwrap_or(len);
+         &input[start..len]
+     } else { input }                                                                   *)
 Fixpoint drop_ws (l : list N) : list N := match l with x :: l' => if is_ws x then drop_ws l' else l | [] => [] end.
+(* the value of `len` after the backwards scan *)
+Definition trim_len (input : list N) : nat := List.length (drop_ws (rev input)).
 Definition trim_byte_string (input : list N) : res (list N) :=
   match input with
   | [] => Val []
-  | _ => if forallb is_ws input then Pan "parser.rs: trim_byte_string input[len - 1] with len == 0"
-         else Val (rev (drop_ws (rev (drop_ws input))))
+  | _ =>
+    let len := trim_len input in
+    let start := match position (fun c => negb (is_ws c)) input with Some p => p | None => len end in
+    if (len <? start)%nat then Pan "parser.rs: trim_byte_string input[start..len]"
+    else Val (firstn (len - start) (skipn start input))
   end.
 
 (* position of a sub-list / byte *)
@@ -269,6 +280,16 @@ Fixpoint attr_loop (fuel : nat) (ty : etype) (rem : list N) (attrs : list (N * c
     end
   end.
 
+(* the final loop of parse_attribute_text over attribute_spec_iter() *)
+Fixpoint req_loop (cur : N) (attrs : list (N * cdata)) (l : list (N * N * cdspec * N)) : M unit :=
+  match l with
+  | [] => ret tt
+  | (name, _, _, required) :: l' =>
+    ((if negb (required =? 0) && negb (existsb (fun a => fst a =? name) attrs)
+      then optional_error RequiredAttributeMissing cur name else ret tt);;
+     req_loop cur attrs l')%M
+  end.
+
 Definition parse_attribute_text (ty : etype) (attributes_text : list N) : M (list (N * cdata)) :=
   (let rem0 := match position (fun c => negb (is_ws c)) attributes_text with
                | Some p => skipn p attributes_text | None => attributes_text end in
@@ -277,14 +298,7 @@ Definition parse_attribute_text (ty : etype) (attributes_text : list N) : M (lis
    (if negb (match rem with [] => true | _ => false end) && negb (forallb is_ws rem)
     then optional_error AttributeValueError (p_cur st) 0 else ret tt);;
    do specs <- lift (attribute_spec_list T ty);
-   (fix req (l : list (N * N * cdspec * N)) : M unit :=
-      match l with
-      | [] => ret tt
-      | (name, _, _, required) :: l' =>
-        (if negb (required =? 0) && negb (existsb (fun a => fst a =? name) attrs)
-         then optional_error RequiredAttributeMissing (p_cur st) name else ret tt);;
-        req l'
-      end) specs;;
+   req_loop (p_cur st) attrs specs;;
    ret attrs)%M.
 
 (* parse_file_version *)
@@ -392,76 +406,83 @@ Definition first_string (e : etree) : option (list N) :=
   match e_content e with inr (DString s) :: _ => Some s | _ => None end.
 
 (* parse_element: `pos` = reversed child-index path of this element; `path` = Autosar path so far.
-   The element's own name/type/attributes/comment were fixed by the caller. *)
-Fixpoint parse_element (fuel : nat) (name : N) (ty : etype) (attrs : list (N * cdata)) (comment : option (list N))
+   The element's own name/type/attributes/comment were fixed by the caller.
+   pe_loop is the `loop { ... }` of parse_element (one iteration per lexer event, fuel `lfuel`); `rec` is the
+   recursive call self.parse_element(new_element, path, lexer).  parse_element has one unit of `fuel` per
+   recursion level (= nesting depth of elements, see C02_depth) and hands `lfuel` to every loop. *)
+Fixpoint pe_loop (rec : N -> etype -> list (N * cdata) -> option (list N) -> list N -> list nat -> M etree)
+         (lfuel : nat) (name : N) (ty : etype) (attrs : list (N * cdata)) (comment : option (list N)) (pos : list nat)
+         (content : list (etree + cdata)) (elem_idx : list N) (short_name_found : bool)
+         (stored_comment : option (list N)) (path : list N) {struct lfuel} : M etree :=
+  match lfuel with
+  | O => mfuel
+  | S lf =>
+    let loop := pe_loop rec lf name ty attrs comment pos in
+    (modify (fun st => set_cur st name);;
+     do ev <- pnext;
+     match ev with
+     | EvBegin elem_text attr_text =>
+       do nm <- lift (name_of tab_el elem_text);
+       match nm with
+       | Some sub_name =>
+         do '(sub_ty, idx) <- find_element_in_spec_checked sub_name ty;
+         check_element_conflict sub_name ty elem_idx idx;;
+         (match content with [] => ret tt | _ => check_multiplicity sub_name ty idx content end);;
+         do sub_attrs <- parse_attribute_text sub_ty attr_text;
+         do sub <- rec sub_name sub_ty sub_attrs stored_comment path (List.length content :: pos);
+         if sub_name =? name_short_name T then
+           match first_string sub with
+           | Some name_string =>
+             let new_path := path ++ [47] ++ name_string in
+             modify (fun st => add_ident st (new_path, rev pos));;
+             loop (content ++ [inl sub]) idx true None new_path
+           | None => loop (content ++ [inl sub]) idx true None path
+           end
+         else loop (content ++ [inl sub]) idx short_name_found None path
+       | None => hard InvalidBeginElement name 0
+       end
+     | EvEnd elem_text =>
+       do nm <- lift (name_of tab_el elem_text);
+       match nm with
+       | Some n =>
+         if n =? name then
+           (* after the loop *)
+           (do st <- get;
+            do named <- lift (is_named_in_version T ty (p_version st));
+            (if negb short_name_found && named
+             then optional_error RequiredSubelementMissing name (name_short_name T) else ret tt);;
+            ret (ENode name ty attrs content comment))
+         else hard IncorrectEndElement name n
+       | None => hard InvalidEndElement name 0
+       end
+     | EvChars text =>
+       do spec <- lift (chardata_spec T ty);
+       match spec with
+       | Some cs =>
+         do value <- parse_character_data text cs;
+         do isr <- lift (is_ref T ty);
+         (match value with
+          | DString refpath => if isr then modify (fun st => add_ref st (refpath, rev pos)) else ret tt
+          | _ => ret tt
+          end);;
+         loop (content ++ [inr value]) elem_idx short_name_found stored_comment path
+       | None =>
+         optional_error CharacterContentForbidden name 0;;
+         loop content elem_idx short_name_found stored_comment path
+       end
+     | EvHeader _ =>
+       optional_error UnexpectedXmlFileHeader name 0;;
+       loop content elem_idx short_name_found stored_comment path
+     | EvEOF => hard UnexpectedEndOfFile name 0
+     | EvComment c => loop content elem_idx short_name_found (Some (utf8_lossy c)) path
+     end)%M
+  end.
+
+Fixpoint parse_element (fuel lfuel : nat) (name : N) (ty : etype) (attrs : list (N * cdata)) (comment : option (list N))
          (path : list N) (pos : list nat) {struct fuel} : M etree :=
   match fuel with
   | O => mfuel
-  | S fuel' =>
-    (fix loop (lfuel : nat) (content : list (etree + cdata)) (elem_idx : list N) (short_name_found : bool)
-              (stored_comment : option (list N)) (path : list N) {struct lfuel} : M etree :=
-       match lfuel with
-       | O => mfuel
-       | S lf =>
-         (modify (fun st => set_cur st name);;
-          do ev <- pnext;
-          match ev with
-          | EvBegin elem_text attr_text =>
-            do nm <- lift (name_of tab_el elem_text);
-            match nm with
-            | Some sub_name =>
-              do '(sub_ty, idx) <- find_element_in_spec_checked sub_name ty;
-              check_element_conflict sub_name ty elem_idx idx;;
-              (match content with [] => ret tt | _ => check_multiplicity sub_name ty idx content end);;
-              do sub_attrs <- parse_attribute_text sub_ty attr_text;
-              do sub <- parse_element fuel' sub_name sub_ty sub_attrs stored_comment path (List.length content :: pos);
-              if sub_name =? name_short_name T then
-                match first_string sub with
-                | Some name_string =>
-                  let new_path := path ++ [47] ++ name_string in
-                  modify (fun st => add_ident st (new_path, rev pos));;
-                  loop lf (content ++ [inl sub]) idx true None new_path
-                | None => loop lf (content ++ [inl sub]) idx true None path
-                end
-              else loop lf (content ++ [inl sub]) idx short_name_found None path
-            | None => hard InvalidBeginElement name 0
-            end
-          | EvEnd elem_text =>
-            do nm <- lift (name_of tab_el elem_text);
-            match nm with
-            | Some n =>
-              if n =? name then
-                (* after the loop *)
-                (do st <- get;
-                 do named <- lift (is_named_in_version T ty (p_version st));
-                 (if negb short_name_found && named
-                  then optional_error RequiredSubelementMissing name (name_short_name T) else ret tt);;
-                 ret (ENode name ty attrs content comment))
-              else hard IncorrectEndElement name n
-            | None => hard InvalidEndElement name 0
-            end
-          | EvChars text =>
-            do spec <- lift (chardata_spec T ty);
-            match spec with
-            | Some cs =>
-              do value <- parse_character_data text cs;
-              do isr <- lift (is_ref T ty);
-              (match value with
-               | DString refpath => if isr then modify (fun st => add_ref st (refpath, rev pos)) else ret tt
-               | _ => ret tt
-               end);;
-              loop lf (content ++ [inr value]) elem_idx short_name_found stored_comment path
-            | None =>
-              optional_error CharacterContentForbidden name 0;;
-              loop lf content elem_idx short_name_found stored_comment path
-            end
-          | EvHeader _ =>
-            optional_error UnexpectedXmlFileHeader name 0;;
-            loop lf content elem_idx short_name_found stored_comment path
-          | EvEOF => hard UnexpectedEndOfFile name 0
-          | EvComment c => loop lf content elem_idx short_name_found (Some (utf8_lossy c)) path
-          end)%M
-       end) fuel [] [] false None path
+  | S fuel' => pe_loop (parse_element fuel' lfuel) lfuel name ty attrs comment pos [] [] false None path
   end.
 
 Definition verify_end_of_input : M unit :=
@@ -503,7 +524,7 @@ Definition parse_arxml (buflen : nat) : M etree :=
            do rt <- root_type;
            do attributes <- parse_attribute_text rt attributes_text;
            parse_file_header attributes;;
-           do root <- parse_element (S buflen) an rt attributes stored_comment [] [];
+           do root <- parse_element (S buflen) (S buflen) an rt attributes stored_comment [] [];
            verify_end_of_input;;
            ret root
          else hard InvalidArxmlFileHeader 0 0
